@@ -8,8 +8,13 @@ state.  Conformance: every transition is replayed on one real decoder; the predi
 fresh decoder by construction, so any leak that is visible in an observable (bytes, checksums, consumed, Ok/Err) is a
 mismatch.  Probe frames make the internal state observable: treeless literals / repeat-mode tables without a previous
 table / a match before the frame start must fail on every decoder, repeat offsets at frame start must use (1, 4, 8).
+The same programs are also run differentially (fddiff): every part that starts with a Reset on a used decoder is repeated
+on a fresh decoder and every return value and accessor is compared call by call -- no model prediction involved, so
+differences the replay treats as as-built drift (how much a call hands out, what can_collect shows) are violations here
+exactly when they distinguish a reused decoder from a fresh one.
 Random histories over real frames (completed and abandoned, all front ends) extend this.
 """
+import json
 from ..common import *
 from .. import fdlib
 
@@ -22,6 +27,18 @@ def check(ctx):
                   _expect_ops=["Reset", "Decode", "Collect", "FromTo"])
     fdlib.run_config(ctx, "MC_FD_histories", "dict", params, cuts="boundaries" if not q else "sparse",
                      what="all histories up to MaxSteps calls per frame; a new frame may start in every state; truncated sources end frames in failures")
+    # the property as a differential statement, free of model predictions: every part of a program that starts with a Reset on
+    # a used decoder is run again on a fresh decoder; returns and accessors must agree call by call
+    rep = ctx.path("fddiff.json")
+    vh(ctx, ["fddiff", ctx.path("frames_dict.json"), ctx.path("MC_FD_histories_programs.ndjson"), rep, 2 if q else 1], timeout=7200)
+    dj = json.load(open(rep))
+    ctx.evaluations += dj["observations_compared"]
+    ctx.traces += dj["segments_compared"]
+    ctx.cov["fresh_vs_reused"] = {k: dj[k] for k in ("programs_with_reuse", "segments_compared", "observations_compared", "mismatches")}
+    for m in dj["first"]:
+        ctx.violation("a reused decoder differs from a fresh one (history %s, then %s): %s" % (json.dumps(m["history"])[:300], json.dumps(m["segment"])[:300], "; ".join(m["errors"])[:700]), m, tag="diff")
+    if dj["segments_compared"] < 1000:
+        raise ToolError("vacuous fresh-vs-reused comparison: %s" % ctx.cov["fresh_vs_reused"])
     fdlib.random_schedules(ctx, 20 if q else 150)
     ctx.assumptions += ["leaks are detected when they change an observable of one of the probe / dictionary / plain frames of the set",
                         "two synthetic dictionaries (entropy tables different from the predefined ones) cross-checked with libzstd"]
